@@ -75,11 +75,13 @@ def admits_conforming(props: Dict[str, Any]) -> bool:
 
 def consistent(props: Dict[str, Any]) -> bool:
     """A property set a characteristic can be given (DESIGN C09, 'Reading'): it admits conforming
-    values and its maxLen is acceptable (0..256).  Used by the generators and compared with the
+    values, its maxLen is acceptable (0..256) and its minStep (numeric formats) is a number.  Used by the generators and compared with the
     model's `consistent`."""
     ml = props.get("maxLen")
     if ml is not None and not (isinstance(ml, int) and 0 <= ml <= SPEC_ABSOLUTE_MAX_LEN):
         return False
+    if props["Format"] in NUMERIC_FORMATS and props.get("minStep") is not None and not _is_number(props["minStep"]):
+        return False  # a step that is not a number is no step at all
     return admits_conforming(props)
 
 
